@@ -238,6 +238,17 @@ def check_linker_read(cfg, w, rep, lf):
                     zero_edges.add((bb.i, switch_target(tu, 0)))     # filled().len() > pre_len  false => nothing read
                 elif opn == "Lt" and syms[0] == ("const", 0):
                     zero_edges.add((bb.i, switch_target(tu, 0)))
+            elif o.kind == "call" and o.callee is not None and o.callee.path.endswith("::is_empty") and tu.j.get("discr_ty") == "bool":
+                # `if !bytes.is_empty() { builder.input(bytes) }`: the very slice that is hashed is empty
+                a0 = w.sym.of_operand(o.body, o.term.args[0])
+                if any(teq(a0, w.sym.of_operand(body, it.args[1])) for _, it in inputs):
+                    zero_edges.add((bb.i, switch_target(tu, 1)))
+            elif o.kind == "unop" and o.info.j["op"] == "Not":
+                for o2 in prog.resolve_op(body, o.info.ops[0], IDENT, o.blk):
+                    if o2.kind == "call" and o2.callee is not None and o2.callee.path.endswith("::is_empty"):
+                        a0 = w.sym.of_operand(o2.body, o2.term.args[0])
+                        if any(teq(a0, w.sym.of_operand(body, it.args[1])) for _, it in inputs):
+                            zero_edges.add((bb.i, switch_target(tu, 0)))
     rds = [rd for rd in ret_defs(prog, body) if rd.cls in ("success", "unknown", "delegated")]
     reach = cf.reachable(0, cut_edges=zero_edges, cut_nodes=cut)
     bad = [rd for rd in rds if rd.blk in reach]
